@@ -90,7 +90,8 @@ def _is_boolish(v):
 
 
 def _is_strish(v):
-    return isinstance(v, str) or (isinstance(v, Sym) and v.kind == "str")
+    # bytes are modelled as strings over the code points 0..255 (latin-1 view), see vals.to_str_term
+    return isinstance(v, (str, bytes)) or (isinstance(v, Sym) and v.kind == "str")
 
 
 def eq(a, b):
